@@ -40,7 +40,13 @@
 #define CELLS(s) (CELL1 (s, 0) && CELL1 (s, 1) && CELL1 (s, 2))
 
 /* allocation ledger (C04): a heap buffer is a live block of exactly capacity () elements of the container's allocator */
-#define BLOCK_(s, N) IMPLIES (WB == DATA (s) && HASALLOC (s, N), WBL != 0 && WBN == CAP (s) && WBA == AID (s))
+/* (with is_always_equal allocators every instance is equal to get_allocator (): the owner's identity is then immaterial) */
+#ifdef ALLOC_ALWAYS_EQUAL
+#define OWNER_EQ(a, b) 1
+#else
+#define OWNER_EQ(a, b) ((a) == (b))
+#endif
+#define BLOCK_(s, N) IMPLIES (WB == DATA (s) && HASALLOC (s, N), WBL != 0 && WBN == CAP (s) && OWNER_EQ (WBA, AID (s)))
 #define BLOCK(s)  BLOCK_ (s, CAP_N)
 #define BLOCKM(s) BLOCK_ (s, CAP_M)
 
@@ -206,14 +212,18 @@
 
 /* ---- documented noexcept conditions (README synopsis), over the configuration facts (C18) ---------
  * std::is_same<std::allocator<T>, Allocator> is false in every configuration (the allocator is vt::alloc).
- * In every configuration the element's move constructor, move assignment and swap are nothrow together (FACT_MOVE_NOEXCEPT). */
+ * The element's move constructor and move assignment are nothrow together (FACT_MOVE_NOEXCEPT); its ADL swap follows them except in the
+ * tswap configurations (FACT_SWAP_NOEXCEPT). */
 #ifdef CFG_N_ZERO
 #define N_IS_ZERO 1
 #else
 #define N_IS_ZERO 0
 #endif
+#ifndef FACT_SWAP_NOEXCEPT
+#define FACT_SWAP_NOEXCEPT FACT_MOVE_NOEXCEPT      /* is_nothrow_swappable<T>: differs from the moves only in the tswap configurations */
+#endif
 #define DOC_NOEXCEPT_MOVE_CTOR    (FACT_MOVE_NOEXCEPT || N_IS_ZERO)
 #define DOC_NOEXCEPT_MOVE_ASSIGN  ((FACT_POCMA || FACT_ALWAYS_EQUAL) && (FACT_MOVE_NOEXCEPT || N_IS_ZERO))
-#define DOC_NOEXCEPT_SWAP         ((FACT_POCS || FACT_ALWAYS_EQUAL) && (FACT_MOVE_NOEXCEPT || N_IS_ZERO))
+#define DOC_NOEXCEPT_SWAP         ((FACT_POCS || FACT_ALWAYS_EQUAL) && ((FACT_MOVE_NOEXCEPT && FACT_SWAP_NOEXCEPT) || N_IS_ZERO))
 
 #endif
